@@ -94,4 +94,26 @@ theorem resolveV2New_result (algo : Nat) (sets : List (List Event)) (auth : List
     · rfl
     · rfl
 
+/-- all stage outputs of `resolveV2New`, in terms of the named stages -/
+def stagesOf (algo : Nat) (sets : List (List Event)) (auth : List Event) (rejected : List ID) : Stages :=
+  let p := prepOf algo sets auth
+  if p.conflicted.isEmpty && p.unconflicted.isEmpty && auth.isEmpty then
+    { conflicted := [], unconflicted := [], authDiff := [], control := [], others := [], controlOrder := [],
+      othersOrder := [], result := [] }
+  else
+    { conflicted := p.conflicted.map (·.eventID), unconflicted := p.unconflicted.map (·.eventID),
+      authDiff := p.authDiff.map (·.eventID), control := p.controlIDs, others := p.others.map (·.eventID),
+      controlOrder := (controlOrderOf algo p).map (·.eventID), othersOrder := (othersOrderOf algo p rejected).map (·.eventID),
+      result := (stateS4 algo p rejected).map (·.2.eventID) }
+
+theorem resolveV2New_eq (algo : Nat) (sets : List (List Event)) (auth : List Event) (rejected : List ID) :
+    resolveV2New algo sets auth rejected = stagesOf algo sets auth rejected := by
+  unfold resolveV2New stagesOf
+  cases h : splitConflictedUnconflicted false sets with
+  | mk c u =>
+    simp only [prepOf, h]
+    split
+    · rfl
+    · rfl
+
 end V.StateRes
